@@ -223,6 +223,38 @@ def check_case(case, shard):
                     bad.append(f"sigmas {getattr(ps, 'sigmas', None)} != override {u['sigmas']}")
                 if "factors" in u and list(getattr(ps, "factors", [])) != list(u["factors"]):
                     bad.append(f"factors {getattr(ps, 'factors', None)} != override {u['factors']}")
+                # ... and in the constraint terms themselves, read off the model (not off the parameter-set report):
+                #  Poisson sets: the expected auxiliary counts are gamma x factors;
+                #  Gaussian sets: moving the auxiliary datum one configured sigma away from the parameter costs exactly 1/2.
+                try:
+                    tb = pyhf.tensorlib
+                    pt = [float(v) for v in init]
+                    for i_ in range(sl.start, sl.stop):
+                        lo_, hi_ = bounds[i_]
+                        pt[i_] = float(min(max(pt[i_] * 1.07 + 0.013, lo_), hi_))
+                    o0 = aux_off[name]
+                    if ps.pdf_type == "poisson":
+                        want_f = list(u["factors"]) if "factors" in u else list(getattr(ps, "factors", []))
+                        ea = [float(x) for x in to_np(model.expected_auxdata(tb.astensor(pt)))][o0: o0 + n]
+                        exp_ = [g_ * f_ for g_, f_ in zip(pt[sl], want_f)]
+                        if "factors" in u and any(abs(a_ - b_) > 1e-9 * (abs(b_) + 1) for a_, b_ in zip(ea, exp_)):
+                            bad.append(f"constraint term expects auxiliary counts {ea}, gamma x configured factors = {exp_}")
+                    elif ps.pdf_type == "normal" and ("sigmas" in u or types <= {"normsys", "histosys"}):
+                        want_s = list(u["sigmas"]) if "sigmas" in u else [1.0] * n
+                        a0 = list(aux)
+                        for j_ in range(n):
+                            a0[o0 + j_] = pt[sl.start + j_]
+                        base_c = float(to_np(model.constraint_logpdf(tb.astensor(a0), tb.astensor(pt))).reshape(-1)[0])
+                        for j_ in range(n):
+                            a1 = list(a0)
+                            a1[o0 + j_] = a0[o0 + j_] + want_s[j_]
+                            d_ = float(to_np(model.constraint_logpdf(tb.astensor(a1), tb.astensor(pt))).reshape(-1)[0]) - base_c
+                            if abs(d_ + 0.5) > 1e-9:
+                                bad.append(f"constraint term of component {j_}: one configured sigma ({want_s[j_]}) changes the log-density by {d_!r}, not -0.5")
+                                break
+                    shard.covered("constraint_terms_read_off_the_model", ps.pdf_type)
+                except Exception as e_:
+                    bad.append(f"constraint term could not be evaluated: {type(e_).__name__}: {str(e_)[:120]}")
             if bad:
                 shard.violate("C12/override-or-default", f"parameter {name} ({sorted(types)}): " + "; ".join(bad)[:500], case, "overrides")
             else:
